@@ -47,6 +47,19 @@ def gen_plan(prop, tier, rng, i):
     ops = M.gen_writes(rng, cfg, nw, maxlen=maxlen)
     # keep the number of files bounded (each costs ~11 ops)
     ops = _bound_files(cfg, ops, 5 if prop == "C10" else 10)
+    if prop in ("C10", "C02") and i % 5 == 3:
+        # large writes into un-chunked files: HDF5 hands blocks of 64 KiB and more straight to pwrite from inside
+        # H5Dwrite (no sieve buffer), so a fault / kill can land in the middle of the data transfer of a call
+        secs = min(4102444800, max(315532800, (cfg.start * cfg.d) // cfg.n))
+        cfg = M.Cfg(**dict(cfg.to_json(), kind=rng.choice(["i8", "f8"]), cstyle="real", nsub=2, continuous=True,
+                           compression=0, checksum=False, n=10000, d=1, file_ms=1000, subdir_s=rng.choice([1, 10])))
+        cfg.start = secs * 10000 + rng.choice([0, 0, 2500])
+        ops, pos = [], 0
+        for k in range(rng.randrange(1, 4)):
+            pos += rng.choice([0, 0, 100])
+            ln = rng.choice([4100, 5000, 9000])
+            ops.append({"op": "w", "rel": pos, "_rel": pos, "len": ln, "salt": k + 1})
+            pos += ln
     plan = {"engine": "crashsim", "cfg": cfg.to_json(), "ops": ops}
     if prop == "C02":
         plan["kill_frac"] = rng.random() if (i % 3 == 0) else None
@@ -55,6 +68,8 @@ def gen_plan(prop, tier, rng, i):
             plan["restart_frac"] = rng.random()
             plan["restart_off"] = rng.choice([0.0, 0.0, 0.5, 0.99])
             plan["restart_nops"] = rng.choice([1, 2])  # (with 1 the refused file is the last one touched before close)
+            if rng.random() < 0.4:
+                plan["restart_mode"] = "after_bounds"
         plan["torn"] = [[rng.random(), rng.random()] for _ in range(6 if thorough else 2)]
     if prop == "C09":
         plan["reader_at_frac"] = sorted(rng.random() for _ in range(2))
@@ -218,6 +233,15 @@ class Observer:
         self.props_complete = False
         self.state_fps = []
         self.uuid = cfg.uuid
+        # last sample the recording is going to reach (readers poll the whole planned window, also the part that
+        # does not exist yet)
+        self.planned_hi = None
+        try:
+            ends = [a + n - 1 for op in plan.get("ops", []) for a, n in RN.op_samples(cfg, op) if n > 0]
+            if ends and max(ends) - cfg.start < 10**7:
+                self.planned_hi = max(ends) + cfg.typical_capacity() + 1
+        except Exception:  # noqa
+            pass
 
     # ---- helpers
     def _fresh_reader(self, k, where):
@@ -368,6 +392,12 @@ class Observer:
                 full = flatten(RC.collect_read(rd, cfg, lo, hi))
             except Exception:  # noqa
                 full = None
+        if self.prop == "C09" and self.planned_hi is not None and self.planned_hi > hi:
+            # the same reader object asked for the whole planned window: nothing beyond what is published may come
+            # back now - and what it learns about not-yet-existing files and directories must not stick
+            errs2 = RC.read_vs_model(rd, cfg, expected, lo, self.planned_hi)
+            self.res.probe("reader_polled_beyond_published_data")
+            self._emit([(p, c, "[%s, planned window] %s" % (age, m)) for p, c, m in errs2], k, where)
         # targeted reads at the edges of the newest published file
         if expected.segs:
             Ts = expected.files()
@@ -558,6 +588,17 @@ def _restart_run(prop, plan, res, kill_at):
         cap = cfg.typical_capacity()
         ops2 = [{"op": "w", "rel": 0, "_rel": 0, "len": max(1, min(cap, 50)), "salt": 7001},
                 {"op": "w", "rel": 2 * cap + 3, "_rel": 2 * cap + 3, "len": max(1, min(cap + 2, 60)), "salt": 7002}]
+        if plan.get("restart_mode") == "after_bounds" and base.segs:
+            # the application resumes right after the last sample a reader reports (get_bounds()[1] + 1): when the
+            # file holding that sample is finalized but not full, the write falls into a published period - it must
+            # be refused and the published file must stay byte for byte what it was
+            c2.start = base.bounds_written()[1] + 1
+            if cfg.file_T(c2.start) in finalized:
+                room = cfg.window(cfg.file_T(c2.start))[1] - c2.start + 1
+                ops2[0] = dict(ops2[0], len=max(1, min(room, 50)), collide=True)
+                far = room + 2 * cap + 3
+                ops2[1] = dict(ops2[1], rel=far, _rel=far)
+                res.probe("restart_resumes_inside_published_period")
         ops2 = ops2[:plan.get("restart_nops", 2)]
         t2 = _UnionTracker(base, Tracker(c2, ops2))
         obs = Observer(prop, res, c2, tree, plan)
